@@ -4,9 +4,11 @@ import (
 	"context"
 	"encoding/binary"
 	"fmt"
+	"runtime"
 	"sort"
 	"strings"
 	"sync"
+	"sync/atomic"
 	"time"
 
 	"github.com/twmb/franz-go/pkg/kfake"
@@ -28,6 +30,11 @@ type GroupStep struct {
 	Close bool // leave by Close (true) or LeaveGroup (false)
 	Dur   time.Duration
 	Part  int32
+	// LogAt > 0 (leave steps): the leave is issued from the member's own log stream, at the
+	// LogAt-th line the client logs after the step begins, on the goroutine that logs it
+	// (kgo calls its logger synchronously): a schedule point between two statements of the
+	// heartbeat / rebalance machinery instead of a virtual instant.
+	LogAt int
 }
 
 type GroupPlan struct {
@@ -116,6 +123,9 @@ func GenGroupPlanF(t *rapid.T, f GroupFocus) GroupPlan {
 		switch s.Kind {
 		case "leave":
 			s.Close = rapid.Bool().Draw(t, "byclose")
+			if rapid.Bool().Draw(t, "leaveatlog?") {
+				s.LogAt = rapid.IntRange(1, 12).Draw(t, "leaveatlog")
+			}
 		case "append":
 			s.N = rapid.IntRange(1, 6).Draw(t, "n")
 			s.Part = int32(rapid.IntRange(0, 7).Draw(t, "part"))
@@ -144,7 +154,7 @@ func (p GroupPlan) Brief() string {
 		case "join", "force":
 			fmt.Fprintf(&b, " slot=%d", s.Slot)
 		case "leave":
-			fmt.Fprintf(&b, " slot=%d close=%v", s.Slot, s.Close)
+			fmt.Fprintf(&b, " slot=%d close=%v logat=%d", s.Slot, s.Close, s.LogAt)
 		case "addtopic":
 			fmt.Fprintf(&b, " slot=%d t=%d", s.Slot, s.Topic)
 		case "mktopic":
@@ -189,6 +199,7 @@ type CommitEv struct {
 }
 
 type GroupObs struct {
+	LeavesAtLog           atomic.Int64 // leaves issued from a client log line
 	Plan                  GroupPlan
 	Log                   *bubble.History
 	mu                    sync.Mutex
@@ -217,6 +228,23 @@ type gmember struct {
 	stop   chan struct{}
 	done   chan struct{}
 	topics map[string]bool
+	// schedule point: when armed > 0 every log line of the client decrements it, and the
+	// line that brings it to zero runs armedFn on the logging goroutine
+	armed   atomic.Int64
+	armedFn atomic.Value // func()
+}
+
+// memberLogger is the kgo.Logger of a group member (see GroupStep.LogAt).
+type memberLogger struct{ m *gmember }
+
+func (memberLogger) Level() kgo.LogLevel { return kgo.LogLevelDebug }
+func (l memberLogger) Log(kgo.LogLevel, string, ...any) {
+	if l.m.armed.Load() > 0 && l.m.armed.Add(-1) == 0 {
+		if f, ok := l.m.armedFn.Load().(func()); ok {
+			f()
+			runtime.Gosched()
+		}
+	}
 }
 
 // RunGroup executes the plan. It asserts nothing (except recording the first dual-ownership
@@ -366,6 +394,7 @@ func RunGroup(e *bubble.Env, p GroupPlan) *GroupObs {
 			opts = append(opts, kgo.WithContext(context.WithValue(context.Background(), "opt_in_kafka_next_gen_balancer_beta", true))) //nolint
 		}
 		// the revoked callback must keep the default autocommit behaviour: wrap it
+		opts = append(opts, kgo.WithLogger(memberLogger{m}))
 		m.cl = e.NewClient(opts...)
 		members[slot] = m
 		o.Joined++
@@ -416,25 +445,37 @@ func RunGroup(e *bubble.Env, p GroupPlan) *GroupObs {
 			}
 		})
 	}
-	leave := func(slot int, byClose bool) {
+	leave := func(slot int, byClose bool, logAt int) {
 		m := members[slot]
 		if m == nil {
 			return
 		}
 		members[slot] = nil
 		o.Left++
-		o.Log.Add("leave-start", int64(slot), m.name, nil, 0, 0)
+		o.Log.Add("leave-start", int64(slot), m.name, nil, int64(logAt), 0)
 		close(m.stop)
 		bubble.WaitTimeout(m.done, Bound)
 		done := make(chan struct{})
-		go func() {
-			if byClose {
-				m.cl.Close()
-			} else {
-				m.cl.LeaveGroup()
-			}
-			close(done)
-		}()
+		var once sync.Once
+		doLeave := func() {
+			once.Do(func() {
+				go func() {
+					if byClose {
+						m.cl.Close()
+					} else {
+						m.cl.LeaveGroup()
+					}
+					close(done)
+				}()
+			})
+		}
+		if logAt > 0 {
+			m.armedFn.Store(func() { o.LeavesAtLog.Add(1); doLeave() })
+			m.armed.Store(int64(logAt))
+			bubble.WaitTimeout(done, 10*time.Second) // not enough log lines in 10 s: leave directly
+			m.armed.Store(0)
+		}
+		doLeave()
 		if !bubble.WaitTimeout(done, Bound) {
 			o.LeaveErrs = append(o.LeaveErrs, fmt.Sprintf("%s: leave (close=%v) did not return within %v", m.name, byClose, Bound))
 		}
@@ -515,7 +556,7 @@ func RunGroup(e *bubble.Env, p GroupPlan) *GroupObs {
 		case "join":
 			join(s.Slot)
 		case "leave":
-			leave(s.Slot, s.Close)
+			leave(s.Slot, s.Close, s.LogAt)
 		case "addtopic":
 			if m := members[s.Slot]; m != nil && !p.Regex {
 				t := p.Topics[s.Topic]
@@ -597,7 +638,7 @@ func RunGroup(e *bubble.Env, p GroupPlan) *GroupObs {
 	time.Sleep(2*p.AutoCommit + 2*time.Second)
 	for slot := range members {
 		if members[slot] != nil {
-			leave(slot, true)
+			leave(slot, true, 0)
 		}
 	}
 	raw := e.RawClient()
